@@ -336,3 +336,15 @@ PROPS['C12'] = {
     'level_note': 'Trusted: as C02; crashes of a real separate process are exercised by the crash scenario (process kill before system call k), select()/router observers by the harness only',
     'claimed': False,
 }
+
+
+def crash_scen(tier, seed):
+    shapes = range(7) if tier == 'thorough' else range(3)
+    return [{'args': ['crash', '--shape', str(i), '--tier', tier]} for i in shapes]
+
+
+PROPS['C12']['scenarios'] = (lambda old: (lambda tier, seed: old(tier, seed) + crash_scen(tier, seed)))(sched_scen(240, 6000))
+PROPS['C12']['rule'] += ('; crash: a spawned sender process is killed by its interposer immediately before counted system call k (socketpair, every sendmsg/send, every '
+                         'close) of one send, for every k, for shapes of 1..6 packets, with/without an attachment, with 0 or 1 surviving sender handle in another process, '
+                         'observed by blocking recv, try_recv polling and a receiver set; the crash point is replayed in the model')
+PROPS['C12']['claimed'] = True
